@@ -229,13 +229,18 @@ def _single_return(fn):
     return _resolve(fn, rets[0]['sub'])
 
 
-def canon(fn, nid, ren):
-    """Canonical structural form of a pure expression; parameters renamed through ren {decl id: role}; && / || as sets."""
+def canon(fn, nid, ren, env=None):
+    """Canonical structural form of a pure expression; parameters renamed through ren {decl id: role}; && / || as sets.
+    env {local decl id: canonical value} gives the value of locals on the path under consideration (see _paths_to)."""
+    if env:
+        n0 = fn.sn(nid)
+        if n0 is not None and n0.get('k') == 'var' and n0.get('vk') == 'local' and n0.get('d') in env:
+            return env[n0['d']]
     n = _rsn(fn, nid)
     if n is None:
         return ('?',)
     k = n.get('k')
-    c = lambda x: canon(fn, x, ren)
+    c = lambda x: canon(fn, x, ren, env)
     if k == 'var':
         if n.get('vk') == 'param':
             return ('P', ren.get(n['d'], n['name']))
@@ -274,6 +279,92 @@ def canon(fn, nid, ren):
     if k == 'initlist':
         return ('init', tuple(c(a) for a in n.get('args', [])))
     return ('?', k, fn.expr(nid))
+
+
+def _paths_to(fn, target_nid, ren, limit=512):
+    """Symbolic values of the locals at statement target_nid: every acyclic CFG path entry -> target as (conds, env) with
+    conds = [(canonical branch condition, sense)] and env = {local decl id: canonical value last stored on that path}.
+    Handles `T x = init;`, `x = value;` (built-in or operator=) on locals.  None if there are loops / too many paths."""
+    pos = fn.positions()
+    if target_nid not in pos:
+        return None
+    tb = pos[target_nid][0]
+    out = []
+    budget = [limit * 8]
+
+    def local_target(x):
+        v = fn.sn(x) if x is not None else None
+        return v['d'] if v is not None and v.get('k') == 'var' and v.get('vk') == 'local' else None
+
+    def walk(b, conds, env, seen):
+        budget[0] -= 1
+        if budget[0] < 0 or len(out) > limit:
+            return False
+        blk = fn.blocks[b]
+        env = dict(env)
+        for e in blk['elems']:
+            if e == target_nid:
+                break
+            n = fn.nodes[e]
+            k = n.get('k')
+            if k == 'decl':
+                for v in n['vars']:
+                    if isinstance(v.get('init'), int):
+                        env[v['d']] = canon(fn, v['init'], ren, env)
+            elif k == 'assign' and n.get('op') == '=':
+                d = local_target(n['lhs'])
+                if d is not None:
+                    env[d] = canon(fn, n['rhs'], ren, env)
+            elif k == 'call' and n.get('op') == '=':
+                a = ([n['recv']] if n.get('recv') is not None else []) + [x for x in n.get('args', []) if x is not None]
+                if len(a) == 2:
+                    d = local_target(a[0])
+                    if d is not None:
+                        env[d] = canon(fn, a[1], ren, env)
+        if b == tb:
+            out.append((conds, env))
+            return True
+        succs = blk['succs']
+        two = 'cond' in blk and len(succs) == 2 and blk.get('termcls') != 'SwitchStmt'
+        cc = canon(fn, blk['cond'], ren, env) if two else None
+        for idx, nx in enumerate(succs):
+            if nx is None:
+                continue
+            if nx in seen:
+                return False        # loop
+            if walk(nx, conds + [(cc, idx == 0)] if two else conds, env, seen | {nx}) is False:
+                return False
+        return True
+
+    if walk(fn.entry, [], {}, {fn.entry}) is False or not out:
+        return None
+    return out
+
+
+def canon_at(fn, nid, ren, paths):
+    """canonical value of expression nid over all paths: one value, or ('ite', c, v1, v0) when exactly one branch condition
+    separates two values (an `if` filling named locals is read like the ternary it replaces)."""
+    if not paths:
+        return canon(fn, nid, ren)
+    vals = [(conds, canon(fn, nid, ren, env)) for conds, env in paths]
+    distinct = []
+    for _c, v in vals:
+        if v not in distinct:
+            distinct.append(v)
+    if len(distinct) == 1:
+        return distinct[0]
+    if len(distinct) == 2:
+        g1 = [c for c, v in vals if v == distinct[0]]
+        g0 = [c for c, v in vals if v == distinct[1]]
+        cands = {c for c, sense in g1[0]}
+        for cc in cands:
+            def always(group, sense):
+                return all(any(c == cc and s == sense for c, s in conds) for conds in group)
+            if always(g1, True) and always(g0, False):
+                return ('ite', cc, distinct[0], distinct[1])
+            if always(g1, False) and always(g0, True):
+                return ('ite', cc, distinct[1], distinct[0])
+    return ('?paths', tuple(distinct))
 
 
 def roles(cn):
@@ -424,8 +515,10 @@ def tuple_rules(fb, R, idprog):
                 continue
             dA, dB = fn.params[0]['d'], fn.params[1]['d']
             ren = {dA: 'A', dB: 'B'}
-            L = [canon(fn, a, ren) for a in largs]
-            Rr = [canon(fn, a, ren) for a in rargs]
+            retn = [n for n in fn.all_nodes() if n.get('k') == 'return']
+            paths = _paths_to(fn, retn[0]['id'], ren) if len(retn) == 1 else None
+            L = [canon_at(fn, a, ren, paths) for a in largs]
+            Rr = [canon_at(fn, a, ren, paths) for a in rargs]
             # ---- T1 mirror
             if len(L) != len(Rr):
                 # cannot compile with std::tuple (sizes are checked statically), so this is an unknown shape
@@ -455,6 +548,9 @@ def tuple_rules(fb, R, idprog):
                 d = '+' if side == 'A' else '-'
                 n = _rsn(fn, largs[i])
                 a = _accessor(fb, fn, n, bases)
+                if a is None and cn[0] == 'call' and cn[3] == () and isinstance(cn[2], tuple) and cn[2][0] == 'P' \
+                        and cn[1].rpartition('::')[0] in bases:
+                    a = (cn[1].rpartition('::')[2], 0)      # accessor reached through a (conditionally) assigned local
                 if a is not None and a[0] in ACCESSOR_KEYS:
                     keys.append((ACCESSOR_KEYS[a[0]], d))
                 elif n is not None and OT._plain_type(n.get('t', '')) == 'bool':
